@@ -46,13 +46,37 @@ Proof.
   - split; [intros [H|[H|H]]; [auto|apply Hpart; auto|apply Hpart; auto]|intros H; apply Hpart in H; destruct H; auto].
 Qed.
 
+Lemma filter_all {A} (f : A -> bool) l : (forall x, In x l -> f x = true) -> filter f l = l.
+Proof.
+  induction l as [|x l IH]; intros H; cbn [filter]; [reflexivity|]. rewrite (H x (or_introl eq_refl)). f_equal. apply IH. intros y Hy. apply H. right. exact Hy.
+Qed.
+Lemma filter_none {A} (f : A -> bool) l : (forall x, In x l -> f x = false) -> filter f l = [].
+Proof.
+  induction l as [|x l IH]; intros H; cbn [filter]; [reflexivity|]. rewrite (H x (or_introl eq_refl)). apply IH. intros y Hy. apply H. right. exact Hy.
+Qed.
+Lemma listed_in acc o : In o acc -> listed acc o = true.
+Proof. intros H. unfold listed. apply existsb_exists. exists o. split; [exact H|apply Nat.eqb_refl]. Qed.
+
+(* one candle, every order inside it (what the step simulator passes): the result is the one-candle ordering *)
+Lemma sort_exec_single orders k : (forall o, In o orders -> includes k o = true) -> sort_exec orders [k] = sort_one orders k.
+Proof.
+  intros Hin. unfold sort_exec. cbn [sort_exec_from app].
+  assert (E0 : filter (fun o => negb (listed [] o)) orders = orders) by (apply filter_all; intros x _; reflexivity).
+  rewrite E0.
+  assert (Es : (if Nat.eqb (length (sort_one orders k)) (length orders) then sort_one orders k else sort_one orders k) = sort_one orders k)
+    by (destruct (Nat.eqb _ _); reflexivity).
+  rewrite Es. rewrite filter_none; [apply app_nil_r|].
+  intros x Hx. apply negb_false_iff. apply listed_in. apply sort_one_in. apply filter_In. split; [exact Hx|apply Hin; exact Hx].
+Qed.
+
+Lemma executing_included k w o : In o (executing k w) -> includes k o = true.
+Proof. unfold executing. intros H. apply filter_In in H. apply H. Qed.
+
 Lemma candidates_in k w x : In x (candidates k w) <-> In x (executing k w).
 Proof.
-  unfold candidates, sort_exec. destruct (Nat.ltb 1 (length (executing k w))); [|reflexivity].
-  cbn [sort_exec_from app].
-  assert (H : In x (sort_one (executing k w) k) <-> In x (executing k w)).
-  { rewrite sort_one_in. unfold executing. rewrite !filter_In. intuition. }
-  destruct (Nat.eqb _ _); cbn [sort_exec_from]; exact H.
+  unfold candidates. destruct (Nat.ltb 1 (length (executing k w))); [|reflexivity].
+  rewrite (sort_exec_single _ k (executing_included k w)).
+  rewrite sort_one_in. unfold executing. rewrite !filter_In. intuition.
 Qed.
 
 Lemma is_active_self w o : In o w -> is_active w o = true.
